@@ -28,7 +28,7 @@ def run(ctx):
         known = set(ev[0]["consts"].keys())
         if declared - known:
             ctx.note("constants declared in constants/market.rs but unknown to the driver's name table: %s" % sorted(declared - known))
-    for f in fails:
+    for f in fails[:100]:      # the first failures are enough to decide and to replay
         e = ev[f["i"] - 1]
         ctx.report(classify(e, f["mon"]), {"driver": "h-programs c17 all", "event_index": f["i"], "event": small(e),
                                            "expected_constant_values": {k: v for k, v in e["consts"].items() if "RESERVE" in k or "RECEIVER" in k}})
